@@ -258,12 +258,11 @@ class SimulationAlgorithm(BaseSimulationAlgorithm):
                 raise LeaspyAlgoInputError("Dataframe has null value in column TIME")
 
         if self.visit_type == VisitType.RANDOM:
-            if (
-                self.param_study["distance_visit_mean"] <= 0
-                and self.param_study["distance_visit_std"] <= 0
-            ):
+            # (a zero standard deviation gives regularly spaced visits; a non-positive mean interval gives a walk
+            # without positive drift: the follow-up age may never be reached)
+            if self.param_study["distance_visit_mean"] <= 0:
                 raise LeaspyAlgoInputError(
-                    "Distance visit mean (distance_visit_mean) and distance visit std need to be positive"
+                    "Distance visit mean (distance_visit_mean) needs to be positive"
                 )
 
     ## --- SET PARAMETERS ---
